@@ -1,6 +1,7 @@
 LC_HEADER = ('From LC Require Import Lib.Bytes Model.MountInfo Model.FsTree Model.Kernel Model.Layers Model.StageOut Cases.LC Cases.C10.\n'
              'Open Scope string_scope.\n')
 PROP = dict(
+    pidns=True,
     go='c10', n_quick=240, n_thorough=2400,
     coq_header=LC_HEADER,
     case_type='C10.case', verdict='C10.verdict',
